@@ -75,11 +75,13 @@ package processors
 //@ func (*dependencyFurtherMatchingPostProcessors).PostProcessProperties
 //@ implements container.InstantiationAwareComponentPostProcessor
 //@ ghost at return: Failed = old(Failed) || result1 != nil
+//@ ghost at return: PropsAt = store(PropsAt, componentName, store(PropsAt[componentName], PropsLen[componentName], toany(d)))
+//@ ghost at return: PropsLen = store(PropsLen, componentName, PropsLen[componentName] + 1)
 //@ property C08 C09 C07
 //@ requires [properties-wellformed] forall(k, int, implies(0 <= k && k < len(properties), PointOK(properties[k])), properties[k])
 //@ requires [properties-distinct] forall(j, int, forall(k, int, implies(0 <= j && j < k && k < len(properties), properties[j] != properties[k])))
 //@ requires [candidates-wellformed] forall(k, int, forall(i, int, implies(0 <= k && k < len(properties) && 0 <= i && i < len(properties[k].Injects) && properties[k].Injects[i] != nil, properties[k].Injects[i].Base != nil && properties[k].Injects[i].Type != nil)))
-//@ assigns any(properties[0].Injects), FilterPos, FilterSrc, Failed
+//@ assigns any(properties[0].Injects), FilterPos, FilterSrc, Failed, PropsLen, PropsAt
 //@ ensures [every-component-property-narrowed] implies(result1 == nil, forall(k, int, implies(0 <= k && k < len(properties) && properties[k].PropertyType == component_definition.PropertyTypeComponent, Narrowed(properties[k], old(properties[k].Injects), properties[k].Injects) || (NoneInQ(properties[k], old(properties[k].Injects)) && !properties[k].IsRequired() && len(properties[k].Injects) == 0)), properties[k]))
 //@ ensures [injects-nil-free] implies(result1 == nil, forall(k, int, implies(0 <= k && k < len(properties) && properties[k].PropertyType == component_definition.PropertyTypeComponent, NilFree(properties[k].Injects)), properties[k]))
 //@ ensures [required-none-errors] implies(exists(k, int, 0 <= k && k < len(properties) && properties[k].PropertyType == component_definition.PropertyTypeComponent && properties[k].IsRequired() && NoneInQ(properties[k], old(properties[k].Injects))), result1 != nil)
@@ -129,12 +131,14 @@ package processors
 //@ func (*dependencyAwarePostProcessors).PostProcessProperties
 //@ implements container.InstantiationAwareComponentPostProcessor
 //@ ghost at return: Failed = old(Failed) || result1 != nil
+//@ ghost at return: PropsAt = store(PropsAt, componentName, store(PropsAt[componentName], PropsLen[componentName], toany(d)))
+//@ ghost at return: PropsLen = store(PropsLen, componentName, PropsLen[componentName] + 1)
 //@ property C06 C07 C09
 //@ ghost after call GetMetas: PosSnap = store(PosSnap, _idx, MetasPos)
 //@ requires [registry-set] d.Registry != nil && DefInv(d.Registry)
 //@ requires [properties-wellformed] forall(k, int, implies(0 <= k && k < len(properties), PointOK(properties[k])), properties[k])
 //@ requires [properties-distinct] forall(j, int, forall(k, int, implies(0 <= j && j < k && k < len(properties), properties[j] != properties[k])))
-//@ assigns anyfield(component_definition.Property, Injects), MetasPos, PosSnap, Failed
+//@ assigns anyfield(component_definition.Property, Injects), MetasPos, PosSnap, Failed, PropsLen, PropsAt
 //@ ensures [no-error] result1 == nil
 //@ ensures [by-name-candidate] forall(k, int, implies(0 <= k && k < len(properties) && ByName(properties[k]), len(properties[k].Injects) == len(old(properties[k].Injects)) + 1 && properties[k].Injects[len(properties[k].Injects) - 1] == ite(d.Registry.DefDom[properties[k].TagVal] && RAssignable(RTypeOf(d.Registry.Def[properties[k].TagVal].Value), properties[k].Type), d.Registry.Def[properties[k].TagVal], nil)), properties[k])
 //@ ensures [by-type-sound] forall(k, int, forall(i, int, implies(0 <= k && k < len(properties) && (ByPtrType(properties[k]) || ByIfaceType(properties[k])) && len(old(properties[k].Injects)) <= i && i < len(properties[k].Injects), MetaOK(properties[k].Injects[i]) && d.Registry.DefDom[properties[k].Injects[i].Name()] && d.Registry.Def[properties[k].Injects[i].Name()] == properties[k].Injects[i] && ite(ByPtrType(properties[k]), RTypeOf(properties[k].Injects[i].Value) == TargetT(properties[k]), RImplements(RTypeOf(properties[k].Injects[i].Value), TargetT(properties[k])))), properties[k].Injects[i]), properties[k])
@@ -160,11 +164,13 @@ package processors
 //@ func (*dependencyFunctionAwarePostProcessors).PostProcessProperties
 //@ implements container.InstantiationAwareComponentPostProcessor
 //@ ghost at return: Failed = old(Failed) || result1 != nil
+//@ ghost at return: PropsAt = store(PropsAt, componentName, store(PropsAt[componentName], PropsLen[componentName], toany(d)))
+//@ ghost at return: PropsLen = store(PropsLen, componentName, PropsLen[componentName] + 1)
 //@ property C06 C09
 //@ requires [registry-set] d.Registry != nil && DefInv(d.Registry)
 //@ requires [properties-wellformed] forall(k, int, implies(0 <= k && k < len(properties), PointOK(properties[k]) && properties[k].args != nil), properties[k])
 //@ requires [properties-distinct] forall(j, int, forall(k, int, implies(0 <= j && j < k && k < len(properties), properties[j] != properties[k])))
-//@ assigns anyfield(component_definition.Property, Injects), MetasPos, Failed
+//@ assigns anyfield(component_definition.Property, Injects), MetasPos, Failed, PropsLen, PropsAt
 //@ ensures [no-error] result1 == nil
 //@ ensures [func-candidates-sound] forall(k, int, forall(i, int, implies(0 <= k && k < len(properties) && (FuncByPtr(properties[k]) || FuncByIface(properties[k])) && len(old(properties[k].Injects)) <= i && i < len(properties[k].Injects), MetaOK(properties[k].Injects[i]) && d.Registry.DefDom[properties[k].Injects[i].Name()] && d.Registry.Def[properties[k].Injects[i].Name()] == properties[k].Injects[i] && RHasMethod(RTypeOf(properties[k].Injects[i].Value), properties[k].TagVal) && ite(FuncByPtr(properties[k]), RTypeOf(properties[k].Injects[i].Value) == TargetT(properties[k]), RImplements(RTypeOf(properties[k].Injects[i].Value), TargetT(properties[k])))), properties[k].Injects[i]), properties[k])
 //@ ensures [earlier-candidates-kept] forall(k, int, forall(i, int, implies(0 <= k && k < len(properties) && 0 <= i && i < len(old(properties[k].Injects)), len(properties[k].Injects) >= len(old(properties[k].Injects)) && properties[k].Injects[i] == oldat(old(properties[k].Injects), i)), properties[k].Injects[i]), properties[k])
@@ -185,9 +191,11 @@ package processors
 //@ func (*valueAwarePostProcessors).PostProcessProperties
 //@ implements container.InstantiationAwareComponentPostProcessor
 //@ ghost at return: Failed = old(Failed) || result1 != nil
+//@ ghost at return: PropsAt = store(PropsAt, componentName, store(PropsAt[componentName], PropsLen[componentName], toany(c)))
+//@ ghost at return: PropsLen = store(PropsLen, componentName, PropsLen[componentName] + 1)
 //@ property C09
 //@ requires [properties-wellformed] forall(k, int, implies(0 <= k && k < len(properties), PointOK(properties[k]) && properties[k].args != nil), properties[k])
-//@ assigns RMem, RTop, Failed
+//@ assigns RMem, RTop, Failed, PropsLen, PropsAt
 //@ ensures [required-missing-errors] implies(result1 == nil, forall(k, int, implies(0 <= k && k < len(properties) && ValuePoint(properties[k]) && properties[k].TagVal == "", !properties[k].IsRequired()), properties[k]))
 //@ ensures [optional-empty-value-skipped] forall(l, int, implies(l <= old(RTop) && forall(k, int, implies(0 <= k && k < len(properties) && ValuePoint(properties[k]) && properties[k].TagVal != "", l != RLoc(properties[k].Value))), RMem[l] == old(RMem[l])))
 //@ loop 1 invariant [bounds] 0 <= _done && _done <= len(properties) && RTop >= old(RTop)
@@ -197,11 +205,13 @@ package processors
 //@ func (*propertiesAwarePostProcessors).PostProcessProperties
 //@ implements container.InstantiationAwareComponentPostProcessor
 //@ ghost at return: Failed = old(Failed) || result1 != nil
+//@ ghost at return: PropsAt = store(PropsAt, componentName, store(PropsAt[componentName], PropsLen[componentName], toany(c)))
+//@ ghost at return: PropsLen = store(PropsLen, componentName, PropsLen[componentName] + 1)
 //@ property C09
 //@ requires [configure-set] c.Configure != nil
 //@ requires [properties-wellformed] forall(k, int, implies(0 <= k && k < len(properties), PointOK(properties[k]) && properties[k].args != nil && properties[k].Configurations != nil), properties[k])
 //@ requires [config-maps-separate] forall(k, int, forall(j, int, implies(0 <= k && k < len(properties) && 0 <= j && j < len(properties), properties[k].args != properties[j].Configurations), properties[j]), properties[k])
-//@ assigns RMem, RTop, any(mapcontents(properties[0].Configurations)), Failed
+//@ assigns RMem, RTop, any(mapcontents(properties[0].Configurations)), Failed, PropsLen, PropsAt
 //@ ensures [required-missing-errors] implies(result1 == nil, forall(k, int, implies(0 <= k && k < len(properties) && PrefixPoint(properties[k]) && CfgGet(properties[k].TagVal) == nil, !properties[k].IsRequired()), properties[k]))
 //@ ensures [optional-missing-config-skipped] forall(l, int, implies(l <= old(RTop) && forall(k, int, implies(0 <= k && k < len(properties) && PrefixPoint(properties[k]) && CfgGet(properties[k].TagVal) != nil, l != RLoc(properties[k].Value))), RMem[l] == old(RMem[l])))
 //@ loop 1 invariant [bounds] 0 <= _done && _done <= len(properties) && RTop >= old(RTop)
@@ -267,10 +277,12 @@ package processors
 //@ property C16 C09
 //@ implements container.InstantiationAwareComponentPostProcessor
 //@ ghost at return: Failed = old(Failed) || result1 != nil
+//@ ghost at return: PropsAt = store(PropsAt, componentName, store(PropsAt[componentName], PropsLen[componentName], toany(c)))
+//@ ghost at return: PropsLen = store(PropsLen, componentName, PropsLen[componentName] + 1)
 //@ requires [wired] c.el != nil && c.el.OK && c.Configure != nil
 //@ requires [properties-wellformed] forall(k, int, implies(0 <= k && k < len(properties), properties[k] != nil && properties[k].Configurations != nil), properties[k])
 //@ requires [properties-distinct] forall(j, int, forall(k, int, implies(0 <= j && j < k && k < len(properties), properties[j] != properties[k])))
-//@ assigns anyfield(component_definition.Property, TagVal), allmaps(map[string]any), ElLastInput, Failed
+//@ assigns anyfield(component_definition.Property, TagVal), allmaps(map[string]any), ElLastInput, Failed, PropsLen, PropsAt
 //@ ensures [resolved-text-has-no-placeholder] implies(result1 == nil, forall(k, int, implies(0 <= k && k < len(properties) && RFirst(c.el.Pattern, properties[k].TagStr) != "", RFirst(c.el.Pattern, properties[k].TagVal) == ""), properties[k]))
 //@ ensures [tags-without-placeholder-untouched] forall(k, int, implies(0 <= k && k < len(properties) && RFirst(c.el.Pattern, properties[k].TagStr) == "", properties[k].TagVal == old(properties[k].TagVal)), properties[k])
 //@ loop 1 invariant [bounds] 0 <= _done && _done <= len(properties)
@@ -351,10 +363,12 @@ package processors
 //@ property C18 C09
 //@ implements container.InstantiationAwareComponentPostProcessor
 //@ ghost at return: Failed = old(Failed) || result1 != nil
+//@ ghost at return: PropsAt = store(PropsAt, componentName, store(PropsAt[componentName], PropsLen[componentName], toany(c)))
+//@ ghost at return: PropsLen = store(PropsLen, componentName, PropsLen[componentName] + 1)
 //@ requires [wired] c.el != nil && c.el.OK
 //@ requires [properties-wellformed] forall(k, int, implies(0 <= k && k < len(properties), properties[k] != nil), properties[k])
 //@ requires [properties-distinct] forall(j, int, forall(k, int, implies(0 <= j && j < k && k < len(properties), properties[j] != properties[k])))
-//@ assigns anyfield(component_definition.Property, TagVal), allmaps(map[string]any), ElLastInput, Failed
+//@ assigns anyfield(component_definition.Property, TagVal), allmaps(map[string]any), ElLastInput, Failed, PropsLen, PropsAt
 //@ ensures [no-expression-left] implies(result1 == nil, forall(k, int, implies(0 <= k && k < len(properties), RFirst(c.el.Pattern, properties[k].TagVal) == ""), properties[k]))
 //@ ensures [text-without-expression-untouched] forall(k, int, implies(0 <= k && k < len(properties) && RFirst(c.el.Pattern, old(properties[k].TagVal)) == "", properties[k].TagVal == old(properties[k].TagVal)), properties[k])
 //@ assert after call ReplaceAllContent: [evaluates-substituted-text] ElLastInput == prop.TagVal
@@ -374,9 +388,11 @@ package processors
 //@ property C18 C09
 //@ implements container.InstantiationAwareComponentPostProcessor
 //@ ghost at return: Failed = old(Failed) || result1 != nil
+//@ ghost at return: PropsAt = store(PropsAt, componentName, store(PropsAt[componentName], PropsLen[componentName], toany(c)))
+//@ ghost at return: PropsLen = store(PropsLen, componentName, PropsLen[componentName] + 1)
 //@ requires [validator-built] c.v != nil
 //@ requires [properties-wellformed] forall(k, int, implies(0 <= k && k < len(properties), PointOK(properties[k]) && properties[k].args != nil && implies(properties[k].Type.Kind() == 22, properties[k].Type.Elem() != nil)), properties[k])
-//@ assigns Failed
+//@ assigns Failed, PropsLen, PropsAt
 //@ ensures [fails-exactly-on-violation] (result1 == nil) == forall(k, int, implies(0 <= k && k < len(properties) && VChecked(properties[k]), VOk(properties[k])), properties[k])
 //@ loop 1 invariant [bounds] 0 <= _done && _done <= len(properties)
 //@ loop 1 invariant [valid-so-far] forall(k, int, implies(0 <= k && k < _done && VChecked(properties[k]), VOk(properties[k])), properties[k])
@@ -421,8 +437,10 @@ package processors
 //@ property C11 C09
 //@ implements container.InstantiationAwareComponentPostProcessor
 //@ ghost at return: Failed = old(Failed) || result1 != nil
+//@ ghost at return: PropsAt = store(PropsAt, componentName, store(PropsAt[componentName], PropsLen[componentName], toany(d)))
+//@ ghost at return: PropsLen = store(PropsLen, componentName, PropsLen[componentName] + 1)
 //@ requires [properties-wellformed] forall(k, int, implies(0 <= k && k < len(properties), PointOK(properties[k]) && properties[k].args != nil && RCanSet(properties[k].Value) && properties[k].Holder.Meta != nil), properties[k])
-//@ assigns RMem, Failed
+//@ assigns RMem, Failed, PropsLen, PropsAt
 //@ ensures [never-fails] result1 == nil && result0 == properties
 //@ ensures [only-logger-fields-written] forall(l, int, implies(forall(k, int, implies(0 <= k && k < len(properties) && properties[k].Tag == definition.LoggerTag, l != RLoc(properties[k].Value))), RMem[l] == old(RMem[l])))
 // A-WIRING: a logger-tagged field has a type the container's logger value can be stored in (a field declared with a
@@ -430,3 +448,37 @@ package processors
 //@ assume before call Set: [logger-value-fits-field] RAssignable(RDynType(logger), RTypeOf(property.Value))
 //@ loop 1 invariant [bounds] 0 <= _done && _done <= len(properties)
 //@ loop 1 invariant [only-logger-fields-written] forall(l, int, implies(forall(k, int, implies(0 <= k && k < _done && properties[k].Tag == definition.LoggerTag, l != RLoc(properties[k].Value))), RMem[l] == old(RMem[l])))
+
+// What a component-factory post-processor stores when it is handed the factory: the built-in ones keep the definition
+// registry or the configuration in their own fields (each verified below); A-CALLBACK for foreign ones.
+//@ frame ProcessorWiring() = anyfield(dependencyAwarePostProcessors, Registry), anyfield(dependencyFunctionAwarePostProcessors, Registry), anyfield(dependencyTypeAwarePostProcessors, Registry), anyfield(propertiesAwarePostProcessors, Configure), anyfield(configQuoteAwarePostProcessors, Configure)
+//@ func (*configQuoteAwarePostProcessors).PostProcessComponentFactory
+//@ property C09
+//@ implements container.ComponentFactoryPostProcessor
+//@ ghost at return: Failed = old(Failed) || result != nil
+//@ assigns c.Configure, Failed
+//@ ensures [wired] result == nil && c.Configure == factory.WiredConfigure
+//@ func (*propertiesAwarePostProcessors).PostProcessComponentFactory
+//@ property C09
+//@ implements container.ComponentFactoryPostProcessor
+//@ ghost at return: Failed = old(Failed) || result != nil
+//@ assigns c.Configure, Failed
+//@ ensures [wired] result == nil && c.Configure == factory.WiredConfigure
+//@ func (*dependencyAwarePostProcessors).PostProcessComponentFactory
+//@ property C09
+//@ implements container.ComponentFactoryPostProcessor
+//@ ghost at return: Failed = old(Failed) || result != nil
+//@ assigns d.Registry, Failed
+//@ ensures [wired] result == nil && d.Registry == factory.DefRegistry
+//@ func (*dependencyFunctionAwarePostProcessors).PostProcessComponentFactory
+//@ property C09
+//@ implements container.ComponentFactoryPostProcessor
+//@ ghost at return: Failed = old(Failed) || result != nil
+//@ assigns d.Registry, Failed
+//@ ensures [wired] result == nil && d.Registry == factory.DefRegistry
+//@ func (*dependencyTypeAwarePostProcessors).PostProcessComponentFactory
+//@ property C09
+//@ implements container.ComponentFactoryPostProcessor
+//@ ghost at return: Failed = old(Failed) || result != nil
+//@ assigns d.Registry, Failed
+//@ ensures [wired] result == nil && d.Registry == factory.DefRegistry
